@@ -553,7 +553,7 @@ pub fn run_component_check(check: &str, tier: Tier, seed: u64) -> i32 {
     let runs = std::env::var("VERIF_RUNS").ok().and_then(|s| s.parse().ok()).unwrap_or(if tier == Tier::Quick { 300_000u64 } else { 20_000_000 });
     let (mut agg, mut wall, mut violations, mut known_hits, mut exit) = run_component_batch(check, tier, seed, runs);
     // C15(c), C16(2), C17(2): the same invariants on the real pipeline (trace monitor / strict runs)
-    let pipeline_runs = std::env::var("VERIF_RUNS").ok().and_then(|s| s.parse().ok()).unwrap_or(if tier == Tier::Quick { 60_000u64 } else { 3_000_000 });
+    let pipeline_runs = std::env::var("VERIF_RUNS").ok().and_then(|s| s.parse().ok()).unwrap_or(if tier == Tier::Quick { 150_000u64 } else { 3_000_000 });
     let (agg2, wall2, v2, k2, e2) = checks::run_pipeline_part(check, tier, seed, pipeline_runs);
     for (k, v) in agg2.counters.iter() {
         *agg.counters.entry(k).or_insert(0) += v;
